@@ -316,12 +316,6 @@ def rescan_env_vars_blocks() -> list:
     3 = UPDATE env_var SET value = ? WHERE node = ? AND name = ?."""
     tree = parse_module(f"{CORE}/startup.py")
     fn = find_function(tree, "rescan_env_vars")
-    src = _name(fn)
-    # what the rows are compared with, in memory
-    for needle in ("new_value = os.getenv(name)", "if new_value == old_value:\n            continue",
-                   "steps_to_rerun[node_i] = Step(workflow, node_i, label)"):
-        if needle not in src:
-            raise TranslatorError(f"rescan_env_vars: expected `{needle}`")
     sqls = [n.value for n in ast.walk(fn) if isinstance(n, ast.Assign) and len(n.targets) == 1
             and _name(n.targets[0]) == "sql"]
     if len(sqls) != 1:
@@ -344,6 +338,84 @@ def rescan_env_vars_blocks() -> list:
             return 3
         return None
     return _blocks_of(fn, classify, "rescan_env_vars")
+
+
+def rescan_env_vars_guards() -> list:
+    """The in-memory comparison of rescan_env_vars, translated statement by statement: under which
+    condition on a row (node, label, name, stored value) of the SELECT the loop (a) collects the step
+    for mark_step_pending and (b) collects the row for the UPDATE.  The loop body is walked with its
+    path condition: `if C: continue` adds `not C` to what follows, `if C: ...` adds `C` inside (and
+    `not C` in the else branch); `a == b`, `a != b`, `not (...)` over the value now
+    (`x = os.getenv(<name column>)`) and the stored value are normalised.  Codes: 1 = exactly "the
+    value now differs from the stored value", 0 = unconditionally, 2 = "the values are equal",
+    9 = anything else."""
+    fn = find_function(parse_module(f"{CORE}/startup.py"), "rescan_env_vars")
+    loops = [n for n in ast.walk(fn) if isinstance(n, ast.For) and _name(n.iter) == "env_var_uses"]
+    if len(loops) != 1 or not isinstance(loops[0].target, ast.Tuple) or len(loops[0].target.elts) != 4:
+        raise TranslatorError("rescan_env_vars: expected one loop `for node, label, name, value in env_var_uses`")
+    node_v, label_v, name_v, old_v = (_name(e) for e in loops[0].target.elts)
+    state = {"new": None}
+    found = {}
+
+    def norm(cond, positive=True):
+        """('differs' | 'equal' | text)"""
+        if isinstance(cond, ast.UnaryOp) and isinstance(cond.op, ast.Not):
+            return norm(cond.operand, not positive)
+        if isinstance(cond, ast.Compare) and len(cond.ops) == 1 and isinstance(cond.ops[0], (ast.Eq, ast.NotEq)):
+            pair = {_name(cond.left), _name(cond.comparators[0])}
+            if state["new"] is not None and pair == {state["new"], old_v}:
+                eq = isinstance(cond.ops[0], ast.Eq)
+                return "equal" if eq == positive else "differs"
+        return ("" if positive else "not ") + _name(cond)
+
+    def ends_in_continue(body):
+        return len(body) > 0 and isinstance(body[-1], ast.Continue)
+
+    def walk(stmts, conds):
+        conds = list(conds)
+        for stmt in stmts:
+            t = _name(stmt)
+            if isinstance(stmt, ast.Assign) and len(stmt.targets) == 1 and isinstance(stmt.targets[0], ast.Name) \
+                    and _name(stmt.value) == f"os.getenv({name_v})":
+                if state["new"] is not None or conds:
+                    raise TranslatorError("rescan_env_vars: the value now is read twice or under a condition")
+                state["new"] = stmt.targets[0].id
+            elif isinstance(stmt, ast.If):
+                if ends_in_continue(stmt.body):
+                    walk(stmt.body[:-1], conds + [norm(stmt.test)])
+                    if stmt.orelse:
+                        walk(stmt.orelse, conds + [norm(stmt.test, False)])
+                    conds.append(norm(stmt.test, False))
+                else:
+                    walk(stmt.body, conds + [norm(stmt.test)])
+                    if ends_in_continue(stmt.orelse):
+                        walk(stmt.orelse[:-1], conds + [norm(stmt.test, False)])
+                        conds.append(norm(stmt.test))
+                    elif stmt.orelse:
+                        walk(stmt.orelse, conds + [norm(stmt.test, False)])
+            elif isinstance(stmt, (ast.For, ast.While, ast.Try, ast.With, ast.AsyncWith, ast.Break, ast.Continue,
+                                   ast.Return)):
+                raise TranslatorError(f"rescan_env_vars: unexpected control flow in the comparison loop: {t[:60]}")
+            elif t == f"steps_to_rerun[{node_v}] = Step(workflow, {node_v}, {label_v})":
+                found.setdefault("mark", []).append(tuple(conds))
+            elif state["new"] is not None and t == f"changed.append(({state['new']}, {node_v}, {name_v}))":
+                found.setdefault("store", []).append(tuple(conds))
+            elif "steps_to_rerun" in t or "changed" in t.replace("changed_", ""):
+                raise TranslatorError(f"rescan_env_vars: unrecognised use of the collections: {t[:80]}")
+
+    walk(loops[0].body, [])
+    out = []
+    for key in ("mark", "store"):
+        gs = found.get(key, [])
+        if len(gs) != 1:
+            raise TranslatorError(f"rescan_env_vars: expected exactly one statement collecting for {key}, found {len(gs)}")
+        g = gs[0]
+        out.append(1 if g == ("differs",) else 0 if g == () else 2 if g == ("equal",) else 9)
+    # what is marked and what is stored must be these two collections
+    src = _name(fn)
+    if "for step in steps_to_rerun.values():" not in src or "WHERE node = ? AND name = ?', changed)" not in src:
+        raise TranslatorError("rescan_env_vars: the collections are not what is marked / stored")
+    return out
 
 
 def _strs(node):
@@ -459,6 +531,7 @@ def generate() -> str:
     updates, failed_loop, cause = startup_facts()
     so = serve_order()
     env_blocks = rescan_env_vars_blocks()
+    env_guards = rescan_env_vars_guards()
     ng_blocks, ng_stmts = rescan_nglobs_blocks()
     hj_txns, rf_blocks = hash_job_structure()
 
@@ -515,6 +588,10 @@ Definition serve_sequence : list N := {nl(so)}.
    rescan_env_vars: 1 = SELECT the env_var rows of attached steps, 2 = mark_step_pending for the
    steps with a changed variable, 3 = UPDATE env_var SET value = <seen now> for the changed rows *)
 Definition rescan_env_vars_blocks : list (list N) := {nll(env_blocks)}.
+(* the in-memory comparison, translated: under which condition a row's step is collected for
+   mark_step_pending and the row for the UPDATE (1 = the value now differs from the stored value,
+   0 = always, 2 = the values are equal, 9 = another condition) *)
+Definition rescan_env_vars_guards : list N := {nl(env_guards)}.
 (* rescan_nglobs: 1 = read the registrations, 2 = persist_nglob_matches for the changed ones;
    Workflow.persist_nglob_matches (no transaction of its own): 1 = Step.delete_hash,
    2 = UPDATE nglob SET data, 3 = mark_step_pending *)
